@@ -6,6 +6,7 @@ package main
 
 import (
 	"fmt"
+	"go/types"
 	"sort"
 	"strconv"
 	"strings"
@@ -30,7 +31,14 @@ func (s State) clone() State {
 }
 
 // VC is the verification context of one function under contract.
+type allocRec struct {
+	ref string
+	typ types.Type // type of the allocated object (element type for slices)
+}
+
 type VC struct {
+	escaped    map[string]bool // allocation results whose address has been stored, passed on or returned
+	allocs     []allocRec
 	Options    string // solver options placed at the head of every script of this VC
 	geqMemo    map[[2]string]bool
 	stable     []string // references of ghost objects that no havoc touches (mode A: the parsed request)
@@ -572,3 +580,58 @@ func (vc *VC) mergeStates(in []incoming) State {
 }
 
 func joinNames(xs []string) string { return strings.Join(xs, " ") }
+
+func (vc *VC) noteAlloc(ref string, t types.Type) {
+	if t != nil {
+		vc.allocs = append(vc.allocs, allocRec{ref, t})
+	}
+}
+
+// typeContains: a value of type inner can be a component (at any depth, not through pointers) of a
+// value of type outer.
+func typeContains(outer, inner types.Type, depth int) bool {
+	if types.Identical(outer, inner) {
+		return true
+	}
+	if depth > 6 {
+		return true
+	}
+	switch u := outer.Underlying().(type) {
+	case *types.Struct:
+		for i := 0; i < u.NumFields(); i++ {
+			if typeContains(u.Field(i).Type(), inner, depth+1) {
+				return true
+			}
+		}
+	case *types.Array:
+		return typeContains(u.Elem(), inner, depth+1)
+	}
+	return false
+}
+
+// escape marks every allocation whose reference occurs in the given value as escaped.
+func (vc *VC) escape(v Val) {
+	for _, c := range v {
+		if isAtom(c.T) {
+			if vc.isAlloc[c.T] {
+				vc.escaped[c.T] = true
+			}
+			if t, ok := vc.S.alias[c.T]; ok {
+				vc.escapeTerm(t)
+			}
+			continue
+		}
+		vc.escapeTerm(c.T)
+	}
+}
+
+func (vc *VC) escapeTerm(t string) {
+	if !strings.Contains(t, "ref_") {
+		return
+	}
+	for a := range vc.isAlloc {
+		if !vc.escaped[a] && strings.Contains(t, a) {
+			vc.escaped[a] = true
+		}
+	}
+}
